@@ -1,15 +1,20 @@
 import SslModel.Model.TyText
-import SslModel.Lemmas.Ty
+import SslModel.Lemmas.TyTrans
 /-!
 # C15 — types survive printing and re-parsing
 
 `TyText.toks` / `TyText.render` model `Display for Type` (on the member / field order given),
 `TyText.lex` + `TyText.parseTy` model the `type` rules of the grammar and `Type::from(Pair)`.
 Proved here: where the printer puts parentheses (exactly around unions in function results and
-in `mut`), what it leaves bare, and the round trip for the base types in any context.  The round
-trip for all types (`parse (print t) = t` for every well-formed, printable `t`) is NOT yet proved;
-it is checked on generated types in both directions between model and implementation
-(tools/props/c15.py), which is also what ties the model to the code.
+in `mut`), what it leaves bare, and **the round trip for all types on the token level**
+(`roundtrip_tokens`): for every well-formed, printable type `t` (tuples have ≥ 2 components, struct
+keys are not reserved words) the parser, run on the tokens the printer emits for `t` followed by
+anything that does not start with `->` or `|`, returns exactly `t` and that remainder — by induction
+on the size of `t` through all thirteen constructors, the ordered choices of the grammar
+(function type before `()` before tuple; `(a|b)` is not a standard type) and `concat`'s rebuilding
+of unions.  The character level (`lex (render ts) = ts`) is not proved; the text route is checked
+on generated types in both directions between model and implementation (tools/props/c15.py),
+which is also what ties the model to the code.
 -/
 set_option linter.unusedSimpArgs false
 namespace Ssl.C15
@@ -89,5 +94,640 @@ theorem render_examples :
     render (toks (.cell (.multi [.arr .never, .struct [("a", .tup [.int, .bool])]]))) =
       "mut ([]|struct{a: (int, bool)})" := by
   constructor <;> simp [toks, toksSep, toksBar, toksFields, render, Tok.text, isNeverLike, sub_never] <;> decide
+
+/-! ## the round trip of every printable well-formed type, on tokens -/
+
+mutual
+def printable : Ty → Bool
+  | .fn ps r => printableL ps && printable r
+  | .arr e => printable e
+  | .tup es => decide (2 ≤ es.length) && printableL es
+  | .multi ms => printableL ms
+  | .cell e => printable e
+  | .struct fs => printableF fs
+  | _ => true
+def printableL : List Ty → Bool
+  | [] => true
+  | t :: ts => printable t && printableL ts
+def printableF : List (String × Ty) → Bool
+  | [] => true
+  | (k, t) :: fs => !restricted.contains k && printable t && printableF fs
+end
+
+/-- what may follow a printed type for `parseStd` to stop where the printer stopped -/
+def NoArrow (rest : List Tok) : Prop := ∀ r, rest ≠ .arrow :: r
+def NoBar (rest : List Tok) : Prop := ∀ r, rest ≠ .bar :: r
+
+/-- first token of a printed type -/
+def starts : Tok → Bool
+  | .word _ | .lp | .lb | .bang => true
+  | _ => false
+
+theorem multi_nonempty2 {ms : List Ty} (hw : wf (.multi ms) = true) : ms ≠ [] := by
+  intro h; subst h; simp [wf] at hw
+
+theorem toks_head_aux : ∀ n : Nat, ∀ t : Ty, size t ≤ n → wf t = true →
+    ∃ x, (toks t).head? = some x ∧ starts x = true := by
+  intro n
+  induction n with
+  | zero => intro t h; have := size_pos t; omega
+  | succ n ih =>
+    intro t hs hw
+    cases t with
+    | bool => exact ⟨.word "bool", by simp [toks], rfl⟩
+    | int => exact ⟨.word "int", by simp [toks], rfl⟩
+    | float => exact ⟨.word "float", by simp [toks], rfl⟩
+    | str => exact ⟨.word "string", by simp [toks], rfl⟩
+    | void => exact ⟨.lp, by simp [toks], rfl⟩
+    | any => exact ⟨.word "any", by simp [toks], rfl⟩
+    | never => exact ⟨.bang, by simp [toks], rfl⟩
+    | fn ps r => exact ⟨.lp, by simp [toks], rfl⟩
+    | arr e =>
+      by_cases h : isNeverLike e = true
+      · exact ⟨.lb, by simp [toks, h], rfl⟩
+      · exact ⟨.lb, by simp [toks, h], rfl⟩
+    | tup es => exact ⟨.lp, by simp [toks], rfl⟩
+    | cell e => exact ⟨.word "mut", by simp [toks], rfl⟩
+    | struct fs => exact ⟨.word "struct", by simp [toks], rfl⟩
+    | multi ms =>
+      have hne := hw
+      simp only [wf, Bool.and_eq_true, decide_eq_true_eq] at hne
+      cases ms with
+      | nil => simp at hne
+      | cons m ms =>
+        cases ms with
+        | nil => simp at hne
+        | cons m2 ms =>
+          simp only [size, sizeL] at hs
+          obtain ⟨x, hx, hst⟩ := ih m (by omega) (wfL_mem hne.1.1.2 (by simp))
+          refine ⟨x, ?_, hst⟩
+          simp only [toks, toksBar]
+          cases htm : toks m with
+          | nil => simp [htm] at hx
+          | cons y ys => simp [htm] at hx ⊢; exact hx
+
+theorem toks_head (t : Ty) (hw : wf t = true) : ∃ x xs, toks t = x :: xs ∧ starts x = true := by
+  obtain ⟨x, hx, hs⟩ := toks_head_aux _ t (Nat.le_refl _) hw
+  cases h : toks t with
+  | nil => simp [h] at hx
+  | cons y ys => simp [h] at hx; subst hx; exact ⟨y, ys, rfl, hs⟩
+
+
+/-! ### what `concat` builds from the members of a well-formed union, in print order -/
+
+theorem neverLike_wf (e : Ty) (hw : wf e = true) (h : isNeverLike e = true) : e = .never := by
+  unfold isNeverLike at h
+  by_cases hm : isMulti e = true
+  · cases e <;> simp [isMulti] at hm
+    rename_i ms
+    exfalso
+    rw [sub_multi_left, allMatch_eq, List.all_eq_true] at h
+    have hne := multi_nonempty2 hw
+    cases ms with
+    | nil => exact hne rfl
+    | cons m ms =>
+      have hm' := isMulti_false_of_member hw (List.mem_cons_self (a := m) (l := ms))
+      have := h m (by simp)
+      rw [sub_never_right m hm'.1 hm'.2.1] at this
+      exact absurd this (by simp)
+  · have hm' : isMulti e = false := by simpa using hm
+    by_cases hn : isNever e = true
+    · cases e <;> simp [isNever] at hn; rfl
+    · have hn' : isNever e = false := by simpa using hn
+      rw [sub_never_right e hm' hn'] at h
+      exact absurd h (by simp)
+
+
+theorem concat_plain (a b : Ty) (ha : isMulti a = false ∧ isNever a = false ∧ a ≠ .any)
+    (hb : isMulti b = false ∧ isNever b = false ∧ b ≠ .any) (hne : eqv a b = false) :
+    concat a b = .multi [a, b] := by
+  obtain ⟨a1, a2, a3⟩ := ha
+  obtain ⟨b1, b2, b3⟩ := hb
+  cases a <;> simp [isMulti, isNever] at a1 a2 a3 <;> cases b <;> simp [isMulti, isNever] at b1 b2 b3 <;>
+    simp [concat, hne]
+
+theorem concat_multi_plain (as : List Ty) (t : Ty) (ht : isMulti t = false ∧ isNever t = false ∧ t ≠ .any) :
+    concat (.multi as) t = .multi (insertM t as) := by
+  obtain ⟨t1, t2, t3⟩ := ht
+  have hne : eqv (.multi as) t = false := by
+    cases t <;> simp [isMulti] at t1 <;> (rw [eqv] <;> simp_all)
+  cases t <;> simp [isMulti, isNever] at t1 t2 t3 <;> simp [concat, hne]
+
+
+def Plain (t : Ty) : Prop := isMulti t = false ∧ isNever t = false ∧ t ≠ .any
+
+def laterNe : List Ty → Prop
+  | [] => True
+  | x :: xs => (∀ z ∈ xs, eqv z x = false) ∧ laterNe xs
+
+theorem laterNe_of_wf : ∀ (ms : List Ty), wfL ms = true → nodupL ms = true → laterNe ms := by
+  intro ms
+  induction ms with
+  | nil => intro _ _; trivial
+  | cons x xs ih =>
+    intro hw hn
+    simp only [wfL, Bool.and_eq_true] at hw
+    rw [nodupL_cons, Bool.and_eq_true, Bool.not_eq_true'] at hn
+    refine ⟨?_, ih hw.2 hn.2⟩
+    intro z hz
+    cases h : eqv z x with
+    | false => rfl
+    | true =>
+      exfalso
+      have := eqv_symm z x (wfL_mem hw.2 hz) hw.1 h
+      have hm : memL x xs = true := (memL_iff x xs).mpr ⟨z, hz, this⟩
+      rw [hm] at hn; exact absurd hn.1 (by simp)
+
+theorem fold_concat_members : ∀ (rest acc : List Ty), (∀ y ∈ rest, Plain y) →
+    (∀ x ∈ acc, ∀ y ∈ rest, eqv y x = false) → laterNe rest →
+    rest.foldl concat (.multi acc) = .multi (acc ++ rest) := by
+  intro rest
+  induction rest with
+  | nil => intro acc _ _ _; simp
+  | cons y rest ih =>
+    intro acc hp hacc hl
+    simp only [List.foldl_cons]
+    rw [concat_multi_plain acc y (hp y (by simp))]
+    have hmem : memL y acc = false := by
+      cases h : memL y acc with
+      | false => rfl
+      | true =>
+        obtain ⟨x, hx, hyx⟩ := (memL_iff y acc).mp h
+        rw [hacc x hx y (by simp)] at hyx; exact absurd hyx (by simp)
+    simp only [insertM, hmem, Bool.false_eq_true, if_false]
+    rw [ih (acc ++ [y]) (fun z hz => hp z (by simp [hz])) ?_ hl.2]
+    · simp
+    · intro x hx z hz
+      rcases List.mem_append.mp hx with hx | hx
+      · exact hacc x hx z (by simp [hz])
+      · simp at hx; subst hx; exact hl.1 z hz
+
+theorem concatL_wf (ms : List Ty) (hw : wf (.multi ms) = true) : concatL ms = .multi ms := by
+  have hw' := hw
+  simp only [wf, Bool.and_eq_true, decide_eq_true_eq] at hw'
+  obtain ⟨⟨⟨hlen, hwl⟩, hmo⟩, hnd⟩ := hw'
+  have hpl : ∀ y ∈ ms, Plain y := fun y hy => by
+    have := membersOk_mem hmo hy; exact ⟨this.1, this.2.1, this.2.2⟩
+  have hl := laterNe_of_wf ms hwl hnd
+  cases ms with
+  | nil => simp at hlen
+  | cons m1 ms =>
+    cases ms with
+    | nil => simp at hlen
+    | cons m2 rest =>
+      simp only [concatL, List.foldl_cons]
+      have hne : eqv m1 m2 = false := by
+        have := hl.1 m2 (by simp)
+        rw [eqv_comm m1 m2 (wfL_mem hwl (by simp)) (wfL_mem hwl (by simp))]; exact this
+      rw [concat_plain m1 m2 (hpl m1 (by simp)) (hpl m2 (by simp)) hne]
+      rw [fold_concat_members rest [m1, m2] (fun y hy => hpl y (by simp [hy])) ?_ hl.2.2]
+      · simp
+      · intro x hx y hy
+        simp at hx
+        rcases hx with rfl | rfl
+        · exact hl.1 y (by simp [hy])
+        · exact hl.2.1 y hy
+
+
+theorem dedup_fold : ∀ (rest acc : List (String × Ty)), (∀ p ∈ acc, ∀ q ∈ rest, p.1 ≠ q.1) → nodupKeys rest = true →
+    rest.foldl (fun acc (kt : String × Ty) => (acc.filter (fun p => p.1 != kt.1)) ++ [(kt.1, kt.2)]) acc = acc ++ rest := by
+  intro rest
+  induction rest with
+  | nil => intro acc _ _; simp
+  | cons q rest ih =>
+    intro acc hacc hn
+    obtain ⟨k, t⟩ := q
+    simp only [nodupKeys, Bool.and_eq_true, Bool.not_eq_true'] at hn
+    simp only [List.foldl_cons]
+    have hf : acc.filter (fun p => p.1 != k) = acc := by
+      rw [List.filter_eq_self]
+      intro p hp
+      have := hacc p hp (k, t) (by simp)
+      simpa using this
+    rw [hf, ih (acc ++ [(k, t)]) ?_ hn.2]
+    · simp
+    · intro p hp q hq
+      rcases List.mem_append.mp hp with hp | hp
+      · exact hacc p hp q (by simp [hq])
+      · simp at hp; subst hp
+        intro heq
+        have : rest.any (fun p => p.1 == k) = true := by
+          rw [List.any_eq_true]; exact ⟨q, hq, by simp at heq; simp [heq]⟩
+        rw [this] at hn; exact absurd hn.1 (by simp)
+
+theorem dedupFields_nodup (fs : List (String × Ty)) (hn : nodupKeys fs = true) : dedupFields fs = fs := by
+  unfold dedupFields
+  have := dedup_fold fs [] (by intro p hp; cases hp) hn
+  simpa using this
+
+
+/-! ### the parser on printed token lists -/
+
+def TyOK (e : Ty) : Prop := ∀ f rest, 6 * size e + 1 ≤ f → NoArrow rest → NoBar rest →
+  parseTy f (toks e ++ rest) = some (e, rest)
+def StdOK (m : Ty) : Prop := ∀ f rest, 6 * size m ≤ f → NoArrow rest →
+  parseStd f (toks m ++ rest) = some (m, rest)
+/-- how a type is printed in result / `mut` position -/
+def retToks (r : Ty) : List Tok :=
+  match r with
+  | .multi _ => [.lp] ++ toks r ++ [.rp]
+  | _ => toks r
+def RetOK (r : Ty) : Prop := ∀ f rest, 6 * size r + 4 ≤ f → NoArrow rest →
+  parseRet f (retToks r ++ rest) = some (r, rest)
+
+theorem noArrow_rp (rest : List Tok) : NoArrow (.rp :: rest) := by intro r h; cases h
+theorem noBar_rp (rest : List Tok) : NoBar (.rp :: rest) := by intro r h; cases h
+theorem noArrow_comma (rest : List Tok) : NoArrow (.comma :: rest) := by intro r h; cases h
+theorem noBar_comma (rest : List Tok) : NoBar (.comma :: rest) := by intro r h; cases h
+
+theorem toksSep_cons2 (e e2 : Ty) (es : List Ty) :
+    toksSep (e :: e2 :: es) = toks e ++ [.comma] ++ toksSep (e2 :: es) := by simp [toksSep]
+
+/-- a printed, comma-separated list followed by `)` is read back -/
+theorem parseList_toks : ∀ (es : List Ty), (∀ e ∈ es, TyOK e) → ∀ f rest, 6 * sizeL es + 1 ≤ f →
+    parseList f (toksSep es ++ .rp :: rest) = some (es, .rp :: rest) := by
+  intro es
+  induction es with
+  | nil =>
+    intro _ f rest hf
+    obtain ⟨g, rfl⟩ : ∃ g, f = g + 1 := ⟨f - 1, by omega⟩
+    simp [toksSep, parseList, parseTy_rp]
+  | cons e es ih =>
+    intro h f rest hf
+    obtain ⟨g, rfl⟩ : ∃ g, f = g + 1 := ⟨f - 1, by omega⟩
+    simp only [sizeL] at hf
+    cases es with
+    | nil =>
+      have := h e (by simp) g (.rp :: rest) (by omega) (noArrow_rp _) (noBar_rp _)
+      simp only [toksSep, parseList, this]
+    | cons e2 es =>
+      rw [toksSep_cons2]
+      have h1 := h e (by simp) g (.comma :: (toksSep (e2 :: es) ++ .rp :: rest)) (by omega) (noArrow_comma _) (noBar_comma _)
+      have h2 := ih (fun x hx => h x (by simp [hx])) g rest (by simp only [sizeL] at hf ⊢; omega)
+      simp only [List.append_assoc, List.singleton_append, List.cons_append, List.nil_append] at h1 ⊢
+      simp only [parseList, h1, h2]
+      simp
+
+
+def barTail : List Ty → List Tok
+  | [] => []
+  | m :: ms => [.bar] ++ toks m ++ barTail ms
+
+theorem toksBar_cons (m : Ty) (ms : List Ty) : toksBar (m :: ms) = toks m ++ barTail ms := by
+  induction ms generalizing m with
+  | nil => simp [toksBar, barTail]
+  | cons m2 ms ih => simp [toksBar, barTail, ih m2]
+
+theorem noArrow_barTail (ms : List Ty) (rest : List Tok) (h : NoArrow rest) : NoArrow (barTail ms ++ rest) := by
+  cases ms with
+  | nil => simpa [barTail] using h
+  | cons m ms => intro r hr; simp [barTail] at hr
+
+/-- the tail `("|" member)*` of a printed union is read back, member after member -/
+theorem parseMore_toks : ∀ (ms : List Ty), (∀ m ∈ ms, StdOK m) → ∀ f rest acc, 6 * sizeL ms + 1 ≤ f →
+    NoArrow rest → NoBar rest → 2 ≤ acc.length + ms.length → 1 ≤ acc.length →
+    parseMore f (barTail ms ++ rest) acc = some (concatL (acc ++ ms), rest) := by
+  intro ms
+  induction ms with
+  | nil =>
+    intro _ f rest acc hf ha hb hlen _
+    obtain ⟨g, rfl⟩ : ∃ g, f = g + 1 := ⟨f - 1, by omega⟩
+    have h2 : acc.length ≥ 2 := by simpa using hlen
+    simp only [barTail, List.nil_append, List.append_nil]
+    cases rest with
+    | nil => simp [parseMore, h2]
+    | cons t ts =>
+      cases t <;> first
+        | (exfalso; exact hb ts rfl)
+        | simp [parseMore, h2]
+  | cons m ms ih =>
+    intro h f rest acc hf ha hb hlen hacc
+    obtain ⟨g, rfl⟩ : ∃ g, f = g + 1 := ⟨f - 1, by omega⟩
+    simp only [sizeL] at hf
+    have h1 := h m (by simp) g (barTail ms ++ rest) (by omega) (noArrow_barTail ms rest ha)
+    have h2 := ih (fun x hx => h x (by simp [hx])) g rest (acc ++ [m]) (by omega) ha hb
+      (by simp only [List.length_append, List.length_cons, List.length_nil] at hlen ⊢; omega)
+      (by simp)
+    simp only [barTail, List.append_assoc, List.singleton_append, List.cons_append, List.nil_append] at h1 ⊢
+    simp only [parseMore, h1, h2]
+    simp
+
+
+theorem noArrow_rc (rest : List Tok) : NoArrow (.rc :: rest) := by intro r h; cases h
+theorem noBar_rc (rest : List Tok) : NoBar (.rc :: rest) := by intro r h; cases h
+
+theorem toksFields_cons2 (k : String) (t : Ty) (p : String × Ty) (fs : List (String × Ty)) :
+    toksFields ((k, t) :: p :: fs) = [.word k, .colon] ++ toks t ++ [.comma] ++ toksFields (p :: fs) := by
+  simp [toksFields]
+
+/-- printed struct fields followed by `}` are read back -/
+theorem parseFields_toks : ∀ (fs : List (String × Ty)), fs ≠ [] → (∀ p ∈ fs, TyOK p.2) →
+    (∀ p ∈ fs, restricted.contains p.1 = false) → ∀ f rest, 6 * sizeF fs + 1 ≤ f →
+    parseFields f (toksFields fs ++ .rc :: rest) = some (fs, .rc :: rest) := by
+  intro fs
+  induction fs with
+  | nil => intro h; exact absurd rfl h
+  | cons p fs ih =>
+    intro _ h hk f rest hf
+    obtain ⟨k, t⟩ := p
+    obtain ⟨g, rfl⟩ : ∃ g, f = g + 1 := ⟨f - 1, by omega⟩
+    simp only [sizeF] at hf
+    have hkr : restricted.contains k = false := hk (k, t) (by simp)
+    cases fs with
+    | nil =>
+      have h1 := h (k, t) (by simp) g (.rc :: rest) (by simp only; omega) (noArrow_rc _) (noBar_rc _)
+      simp only [toksFields, List.append_assoc, List.cons_append, List.nil_append] at h1 ⊢
+      simp only [parseFields, hkr, h1]
+      simp
+    | cons q fs =>
+      rw [toksFields_cons2]
+      have h1 := h (k, t) (by simp) g (.comma :: (toksFields (q :: fs) ++ .rc :: rest)) (by simp only; omega)
+        (noArrow_comma _) (noBar_comma _)
+      have h2 := ih (by simp) (fun x hx => h x (by simp [hx])) (fun x hx => hk x (by simp [hx])) g rest
+        (by simp only [sizeF] at hf ⊢; omega)
+      simp only [List.append_assoc, List.singleton_append, List.cons_append, List.nil_append] at h1 ⊢
+      simp only [parseFields, hkr, h1, h2]
+      simp
+
+
+/-- `(a|b)` is not a standard type unless `->` follows: no function type (the parameter list would
+    need `->` after it), not `()`, not a tuple (one component) -/
+theorem parseStd_paren_union (ms : List Ty) (hw : wf (.multi ms) = true) (hok : TyOK (.multi ms))
+    (f : Nat) (rest : List Tok) (hf : 6 * size (.multi ms) + 3 ≤ f) (ha : NoArrow rest) :
+    parseStd f (.lp :: (toks (.multi ms) ++ .rp :: rest)) = none := by
+  obtain ⟨g, rfl⟩ : ∃ g, f = g + 1 := ⟨f - 1, by omega⟩
+  obtain ⟨h, rfl⟩ : ∃ h, g = h + 1 := ⟨g - 1, by omega⟩
+  have hty := hok h (.rp :: rest) (by omega) (noArrow_rp _) (noBar_rp _)
+  have hl : parseList (h + 1) (toks (.multi ms) ++ .rp :: rest) = some ([.multi ms], .rp :: rest) := by
+    simp only [parseList, hty]
+  obtain ⟨x, xs, hx, hst⟩ := toks_head (.multi ms) hw
+  rw [hx] at hl ⊢
+  simp only [List.cons_append] at hl ⊢
+  cases rest with
+  | nil => cases x <;> simp [starts] at hst <;> simp [parseStd, hl]
+  | cons t ts =>
+    cases t <;> first
+      | (exfalso; exact ha ts rfl)
+      | (cases x <;> simp [starts] at hst <;> simp [parseStd, hl])
+
+
+theorem toks_fn (ps : List Ty) (r : Ty) : toks (.fn ps r) = [.lp] ++ toksSep ps ++ [.rp, .arrow] ++ retToks r := by
+  cases r <;> simp [toks, retToks]
+
+theorem toks_cell (e : Ty) : toks (.cell e) = [.word "mut"] ++ retToks e := by
+  cases e <;> simp [toks, retToks]
+
+theorem stdOK_fn (ps : List Ty) (r : Ty) (hps : ∀ p ∈ ps, TyOK p) (hr : RetOK r) : StdOK (.fn ps r) := by
+  intro f rest hf ha
+  obtain ⟨g, rfl⟩ : ∃ g, f = g + 1 := ⟨f - 1, by simp only [size] at hf; omega⟩
+  simp only [size] at hf
+  have hl := parseList_toks ps hps g (.arrow :: (retToks r ++ rest)) (by omega)
+  have hrr := hr g rest (by omega) ha
+  rw [toks_fn]
+  simp only [List.append_assoc, List.singleton_append, List.cons_append, List.nil_append] at hl ⊢
+  simp only [parseStd, hl, hrr]
+
+theorem tyOK_of_std (t : Ty) (hm : isMulti t = false) (h : StdOK t) : TyOK t := by
+  intro f rest hf ha hb
+  obtain ⟨g, rfl⟩ : ∃ g, f = g + 1 := ⟨f - 1, by omega⟩
+  have := h g rest (by omega) ha
+  simp only [parseTy, this]
+  cases rest with
+  | nil => rfl
+  | cons x xs => cases x <;> first | (exfalso; exact hb xs rfl) | rfl
+
+theorem retOK_of_std (r : Ty) (hm : isMulti r = false) (h : StdOK r) : RetOK r := by
+  intro f rest hf ha
+  obtain ⟨g, rfl⟩ : ∃ g, f = g + 1 := ⟨f - 1, by omega⟩
+  have := h g rest (by omega) ha
+  have e : retToks r = toks r := by cases r <;> simp [retToks, isMulti] at hm ⊢
+  rw [e]
+  simp only [parseRet, this]
+
+theorem stdOK_cell (e : Ty) (he : RetOK e) : StdOK (.cell e) := by
+  intro f rest hf ha
+  obtain ⟨g, rfl⟩ : ∃ g, f = g + 1 := ⟨f - 1, by simp only [size] at hf; omega⟩
+  simp only [size] at hf
+  have := he g rest (by omega) ha
+  rw [toks_cell]
+  simp only [List.singleton_append, List.cons_append, List.nil_append, List.append_assoc]
+  simp [parseStd, this]
+
+
+theorem stdOK_arr (e : Ty) (hw : wf e = true) (he : TyOK e) : StdOK (.arr e) := by
+  intro f rest hf ha
+  obtain ⟨g, rfl⟩ : ∃ g, f = g + 1 := ⟨f - 1, by simp only [size] at hf; omega⟩
+  simp only [size] at hf
+  by_cases hn : isNeverLike e = true
+  · have := neverLike_wf e hw hn
+    subst this
+    simp [toks, hn, parseStd]
+  · have hn' : isNeverLike e = false := by simpa using hn
+    have hty := he g (.rb :: rest) (by omega) (by intro r h; cases h) (by intro r h; cases h)
+    obtain ⟨x, xs, hx, hst⟩ := toks_head e hw
+    simp only [toks, hn', Bool.false_eq_true, if_false]
+    rw [hx] at hty ⊢
+    simp only [List.append_assoc, List.singleton_append, List.cons_append, List.nil_append] at hty ⊢
+    cases x <;> simp [starts] at hst <;> simp [parseStd, hty]
+
+theorem stdOK_tup (es : List Ty) (hlen : 2 ≤ es.length) (hw : wfL es = true) (hes : ∀ e ∈ es, TyOK e) :
+    StdOK (.tup es) := by
+  intro f rest hf ha
+  obtain ⟨g, rfl⟩ : ∃ g, f = g + 1 := ⟨f - 1, by simp only [size] at hf; omega⟩
+  simp only [size] at hf
+  have hl := parseList_toks es hes g rest (by omega)
+  cases es with
+  | nil => simp at hlen
+  | cons e1 es1 =>
+    obtain ⟨x, xs, hx, hst⟩ := toks_head e1 (wfL_mem hw (by simp))
+    have hsep : ∃ ys, toksSep (e1 :: es1) = x :: ys := by
+      cases es1 with
+      | nil => exact ⟨xs, by simp [toksSep, hx]⟩
+      | cons e2 es2 => exact ⟨xs ++ [.comma] ++ toksSep (e2 :: es2), by rw [toksSep_cons2, hx]; simp⟩
+    obtain ⟨ys, hys⟩ := hsep
+    simp only [toks]
+    rw [hys] at hl ⊢
+    simp only [List.append_assoc, List.singleton_append, List.cons_append, List.nil_append] at hl ⊢
+    have hl2 : ¬ es1 = [] := by intro h; subst h; simp at hlen
+    cases rest with
+    | nil => cases x <;> simp [starts] at hst <;> simp [parseStd, hl, hl2]
+    | cons t ts =>
+      cases t <;> first
+        | (exfalso; exact ha ts rfl)
+        | (cases x <;> simp [starts] at hst <;> simp [parseStd, hl, hl2])
+
+
+theorem stdOK_struct (fs : List (String × Ty)) (hn : nodupKeys fs = true)
+    (hk : ∀ p ∈ fs, restricted.contains p.1 = false) (hfs : ∀ p ∈ fs, TyOK p.2) : StdOK (.struct fs) := by
+  intro f rest hf ha
+  obtain ⟨g, rfl⟩ : ∃ g, f = g + 1 := ⟨f - 1, by simp only [size] at hf; omega⟩
+  simp only [size] at hf
+  cases fs with
+  | nil => simp [toks, toksFields, parseStd]
+  | cons p fs =>
+    have hl := parseFields_toks (p :: fs) (by simp) hfs hk g rest (by omega)
+    have hd := dedupFields_nodup (p :: fs) hn
+    obtain ⟨k, t⟩ := p
+    have hstart : ∃ ys, toksFields ((k, t) :: fs) = .word k :: .colon :: ys := by
+      cases fs with
+      | nil => exact ⟨toks t, by simp [toksFields]⟩
+      | cons q fs => exact ⟨toks t ++ [.comma] ++ toksFields (q :: fs), by rw [toksFields_cons2]; simp⟩
+    obtain ⟨ys, hys⟩ := hstart
+    simp only [toks]
+    rw [hys] at hl ⊢
+    simp only [List.append_assoc, List.singleton_append, List.cons_append, List.nil_append] at hl ⊢
+    simp [parseStd, hl, hd]
+
+theorem tyOK_multi (ms : List Ty) (hw : wf (.multi ms) = true) (hms : ∀ m ∈ ms, StdOK m) : TyOK (.multi ms) := by
+  intro f rest hf ha hb
+  obtain ⟨g, rfl⟩ : ∃ g, f = g + 1 := ⟨f - 1, by omega⟩
+  have hw' := hw
+  simp only [wf, Bool.and_eq_true, decide_eq_true_eq] at hw'
+  cases ms with
+  | nil => simp at hw'
+  | cons m1 ms =>
+    cases ms with
+    | nil => simp at hw'
+    | cons m2 ms =>
+      simp only [size, sizeL] at hf
+      have h1 := hms m1 (by simp) g (barTail (m2 :: ms) ++ rest) (by omega) (noArrow_barTail _ rest ha)
+      have h2 := parseMore_toks (m2 :: ms) (fun x hx => hms x (by simp [hx])) g rest [m1]
+        (by simp only [sizeL]; omega) ha hb (by simp; omega) (by simp)
+      have hc := concatL_wf (m1 :: m2 :: ms) hw
+      simp only [toks]
+      rw [toksBar_cons]
+      simp only [List.append_assoc] at h1 ⊢
+      simp only [parseTy, h1]
+      simp only [barTail, List.append_assoc, List.singleton_append, List.cons_append, List.nil_append] at h2 ⊢
+      rw [h2]
+      simp only [List.singleton_append, hc]
+
+theorem retOK_multi (ms : List Ty) (hw : wf (.multi ms) = true) (hty : TyOK (.multi ms)) : RetOK (.multi ms) := by
+  intro f rest hf ha
+  obtain ⟨g, rfl⟩ : ∃ g, f = g + 1 := ⟨f - 1, by omega⟩
+  have hnone := parseStd_paren_union ms hw hty g rest (by omega) ha
+  have hin := hty g (.rp :: rest) (by omega) (noArrow_rp _) (noBar_rp _)
+  simp only [retToks, List.append_assoc, List.singleton_append, List.cons_append, List.nil_append]
+  simp only [parseRet, hnone, hin]
+
+
+theorem printableL_mem {ts : List Ty} (h : printableL ts = true) {x : Ty} (hx : x ∈ ts) : printable x = true := by
+  induction ts with
+  | nil => cases hx
+  | cons t ts ih =>
+    simp only [printableL, Bool.and_eq_true] at h
+    rcases List.mem_cons.mp hx with rfl | hx
+    · exact h.1
+    · exact ih h.2 hx
+
+theorem printableF_mem {fs : List (String × Ty)} (h : printableF fs = true) {p : String × Ty} (hp : p ∈ fs) :
+    restricted.contains p.1 = false ∧ printable p.2 = true := by
+  induction fs with
+  | nil => cases hp
+  | cons q fs ih =>
+    obtain ⟨k, t⟩ := q
+    simp only [printableF, Bool.and_eq_true, Bool.not_eq_true'] at h
+    rcases List.mem_cons.mp hp with rfl | hp
+    · exact ⟨h.1.1, h.1.2⟩
+    · exact ih h.2 hp
+
+theorem roundtrip_aux : ∀ n : Nat, ∀ t : Ty, size t ≤ n → wf t = true → printable t = true →
+    (isMulti t = false → StdOK t) ∧ TyOK t ∧ RetOK t := by
+  intro n
+  induction n with
+  | zero => intro t h; have := size_pos t; omega
+  | succ n ih =>
+    intro t hs hw hp
+    -- the three statements follow from `StdOK` for non-unions
+    have fromStd : isMulti t = false → StdOK t → (isMulti t = false → StdOK t) ∧ TyOK t ∧ RetOK t :=
+      fun hm h => ⟨fun _ => h, tyOK_of_std t hm h, retOK_of_std t hm h⟩
+    cases t with
+    | bool => exact fromStd rfl (fun f rest hf _ => by
+        obtain ⟨g, rfl⟩ : ∃ g, f = g + 1 := ⟨f - 1, by simp only [size] at hf; omega⟩
+        exact roundtrip_base .bool rfl g rest)
+    | int => exact fromStd rfl (fun f rest hf _ => by
+        obtain ⟨g, rfl⟩ : ∃ g, f = g + 1 := ⟨f - 1, by simp only [size] at hf; omega⟩
+        exact roundtrip_base .int rfl g rest)
+    | float => exact fromStd rfl (fun f rest hf _ => by
+        obtain ⟨g, rfl⟩ : ∃ g, f = g + 1 := ⟨f - 1, by simp only [size] at hf; omega⟩
+        exact roundtrip_base .float rfl g rest)
+    | str => exact fromStd rfl (fun f rest hf _ => by
+        obtain ⟨g, rfl⟩ : ∃ g, f = g + 1 := ⟨f - 1, by simp only [size] at hf; omega⟩
+        exact roundtrip_base .str rfl g rest)
+    | any => exact fromStd rfl (fun f rest hf _ => by
+        obtain ⟨g, rfl⟩ : ∃ g, f = g + 1 := ⟨f - 1, by simp only [size] at hf; omega⟩
+        exact roundtrip_base .any rfl g rest)
+    | never => exact fromStd rfl (fun f rest hf _ => by
+        obtain ⟨g, rfl⟩ : ∃ g, f = g + 1 := ⟨f - 1, by simp only [size] at hf; omega⟩
+        exact roundtrip_base .never rfl g rest)
+    | void => exact fromStd rfl (fun f rest hf ha => by
+        obtain ⟨g, rfl⟩ : ∃ g, f = g + 2 := ⟨f - 2, by simp only [size] at hf; omega⟩
+        exact roundtrip_void g rest ha)
+    | fn ps r =>
+      simp only [size] at hs
+      simp only [wf, Bool.and_eq_true] at hw
+      simp only [printable, Bool.and_eq_true] at hp
+      refine fromStd rfl (stdOK_fn ps r ?_ ?_)
+      · intro p hpm
+        exact (ih p (by have := size_lt_sizeL hpm; omega) (wfL_mem hw.1 hpm) (printableL_mem hp.1 hpm)).2.1
+      · exact (ih r (by omega) hw.2 hp.2).2.2
+    | arr e =>
+      simp only [size] at hs
+      simp only [wf] at hw
+      simp only [printable] at hp
+      exact fromStd rfl (stdOK_arr e hw (ih e (by omega) hw hp).2.1)
+    | tup es =>
+      simp only [size] at hs
+      simp only [wf] at hw
+      simp only [printable, Bool.and_eq_true, decide_eq_true_eq] at hp
+      refine fromStd rfl (stdOK_tup es hp.1 hw ?_)
+      intro e he
+      exact (ih e (by have := size_lt_sizeL he; omega) (wfL_mem hw he) (printableL_mem hp.2 he)).2.1
+    | cell e =>
+      simp only [size] at hs
+      simp only [wf] at hw
+      simp only [printable] at hp
+      exact fromStd rfl (stdOK_cell e (ih e (by omega) hw hp).2.2)
+    | struct fs =>
+      simp only [size] at hs
+      simp only [wf, Bool.and_eq_true] at hw
+      simp only [printable] at hp
+      refine fromStd rfl (stdOK_struct fs hw.2 (fun p hpm => (printableF_mem hp hpm).1) ?_)
+      intro p hpm
+      exact (ih p.2 (by have := size_lt_sizeF (k := p.1) (x := p.2) (fs := fs) hpm; omega) (wfF_mem hw.1 hpm)
+        (printableF_mem hp hpm).2).2.1
+    | multi ms =>
+      simp only [size] at hs
+      simp only [printable] at hp
+      have hty : TyOK (.multi ms) := by
+        apply tyOK_multi ms hw
+        intro m hm
+        have hm' := isMulti_false_of_member hw hm
+        exact (ih m (by have := size_lt_sizeL hm; omega) hm'.2.2.2 (printableL_mem hp hm)).1 hm'.1
+      exact ⟨fun h => by simp [isMulti] at h, hty, retOK_multi ms hw hty⟩
+
+/-- **printing then parsing gives the type back** (on tokens): for every well-formed printable type,
+    with enough fuel, and whatever follows it unless that is `->` or `|` -/
+theorem roundtrip_tokens (t : Ty) (hw : wf t = true) (hp : printable t = true) (rest : List Tok)
+    (ha : NoArrow rest) (hb : NoBar rest) (f : Nat) (hf : 6 * size t + 1 ≤ f) :
+    parseTy f (toks t ++ rest) = some (t, rest) :=
+  (roundtrip_aux _ t (Nat.le_refl _) hw hp).2.1 f rest hf ha hb
+
+/-- non-vacuity: a nested type meeting the hypotheses, and its round trip at the top level -/
+def sampleTy : Ty :=
+  .fn [.multi [.int, .str], .tup [.int, .cell (.multi [.int, .void])]]
+      (.multi [.arr .never, .struct [("a", .fn [] (.tup [.bool, .any]))]])
+
+example : wf sampleTy = true ∧ printable sampleTy = true := by
+  constructor
+  · simp [sampleTy, wf, wfL, wfF, membersOk, nodupL, nodupKeys, memL, eqv]
+  · simp [sampleTy, printable, printableL, printableF, restricted]
+
+example : ∃ f, parseTy f (toks sampleTy) = some (sampleTy, []) := by
+  refine ⟨6 * size sampleTy + 1, ?_⟩
+  have := roundtrip_tokens sampleTy (by simp [sampleTy, wf, wfL, wfF, membersOk, nodupL, nodupKeys, memL, eqv])
+    (by simp [sampleTy, printable, printableL, printableF, restricted]) []
+    (by intro r h; cases h) (by intro r h; cases h) (6 * size sampleTy + 1) (Nat.le_refl _)
+  simpa using this
 
 end Ssl.C15
